@@ -32,6 +32,7 @@ const (
 	blockGasLim  = 12000000
 	lockupByte   = byte(1)
 	lockupEpoch  = uint32(0)
+	precompileHex = "0x0000000000000000000000000000000000000007" // bn256ScalarMul of zone 0-0 (vm.InitializePrecompiles: location byte prefix + index)
 	kQuaiAddrHex = "0x00640d82EF6552085e494DF2a2EAec18D8215913" // core/state_transition.go kQuaiSettingAddress
 )
 
@@ -177,6 +178,8 @@ func newWorldOpt(pre *Pre, lockInBatch bool) *World {
 			w.addr[n] = fixedAddr(0x00, 0x20, 0xf1)
 		case n == "Q":
 			w.addr[n] = common.HexToAddress(kQuaiAddrHex, loc)
+		case n == "P":
+			w.addr[n] = common.HexToAddress(precompileHex, loc)
 		case n == "N":
 			// bound when a CREATE runs
 		default:
